@@ -206,6 +206,14 @@ func (k *c19) runSet56(cs *c19Case) {
 		k.vio(cs, "gtid56-panic", "SID block round trip panicked: "+c18FirstLine(p), map[string]string{"panic": p})
 		return
 	}
+	// a block handed out earlier must not change when another set is serialised
+	if c19HeldBlk.orig != nil && !bytes.Equal(c19HeldBlk.orig, c19HeldBlk.copy) {
+		k.vio(cs, "gtid56-sidblock-changed-by-later-call", fmt.Sprintf("the SID block returned for {%s} changed when the block of {%s} was built", c18Short(c19HeldBlk.text), c18Short(cs.Set56.Text)),
+			map[string]string{"before": fmt.Sprintf("%x", c19HeldBlk.copy), "after": fmt.Sprintf("%x", c19HeldBlk.orig)})
+	}
+	if len(blk) > 8 {
+		c19HeldBlk.orig, c19HeldBlk.copy, c19HeldBlk.text = blk, append([]byte(nil), blk...), cs.Set56.Text
+	}
 	switch {
 	case e2 != nil:
 		k.vio(cs, "gtid56-sidblock-roundtrip", fmt.Sprintf("NewMysql56GTIDSetFromSIDBlock(SIDBlock()) of {%s}: %v", c18Short(cs.Set56.Text), e2),
@@ -1081,4 +1089,10 @@ func runC19(c *core.Ctx) {
 	}
 	c.ExhaustiveDomain("edge list: SIDs all-zero, all-FF and each single byte set to 01/80/ff x sequence {1, 2^31, 2^63-1} as GTID text round trip, GTID_EVENT and one-member set; " +
 		"MariaDB domain x server in {0,1,2^32-1}^2 x sequence {1, 2^31, 2^63-1} as GTID text round trip, GTID event with flags2 0/1, one-member set")
+}
+
+// c19HeldBlk keeps the SID block of the previous case (and a private copy).
+var c19HeldBlk struct {
+	orig, copy []byte
+	text       string
 }
